@@ -191,6 +191,8 @@ def run(ctx):
                               {"kind": "trace", "fixture": fx.name, "trace": ok[i], "clause": clause})
     finally:
         shutil.rmtree(tmp, ignore_errors=True)
+    from harness.apalache import chunk_arith
+    chunk_arith(ctx)            # np.array_split arithmetic for unbounded lengths / chunk counts (optional extra)
     if not ctx.quick:      # the composed loop (real script + real command-line programs incl. calculate_scores): this property's clause of it
         from harness.pipeline import run_e2e
         run_e2e(ctx, "C06", [(2, ctx.seed), (3, ctx.seed + 1)])
